@@ -1,7 +1,11 @@
 check('C14', 'proof',
       'Coq theorems on text REGENERATED from the source on every run: T14_trotter_time (for orders 1, 2, 4, "4_opt", every N >= 1, '
       'each parity class and every value of the irrational constant, the schedule of suzuki_trotter_decomposition composes to exactly N '
-      'time steps), T14_trotter_symmetric (palindromic schedules), T14_bond_coverage (odd+even step touch every existing bond exactly '
+      'time steps), T14_trotter_merge (orders 1, 2, 4, "4_opt", every N >= 1 by induction: the N-step schedule with each entry replaced by '
+      '(time-step polynomial, parity) equals, after merging adjacent entries of equal parity by adding their time polynomials, the merged '
+      'N-fold repetition of the N=1 schedule - same length, same parities, times equal coefficientwise in Q; T14_merge_normal_form: merge '
+      'yields no adjacent equal parities, fixes such lists, is idempotent and preserves the time per parity class; merge itself has no '
+      'correspondence checker, it is applied to the regenerated tables), T14_trotter_symmetric (palindromic schedules), T14_bond_coverage (odd+even step touch every existing bond exactly '
       'once, any L, finite/infinite), T14_accounting_exact + T14_all_engines_single_add (every time-evolution engine class of the source '
       'accumulates evolved_time and trunc_err exactly once per run, hence after ANY history of run() calls evolved_time = start + sum '
       'N*dt and trunc_err.eps = start + sum of the performed truncation errors). Correspondence: the generated schedule vs the Python '
